@@ -73,7 +73,20 @@ func execute(t *testing.T, prop, tier string, c *Chooser) (res *RunResult) {
 		curSched.Store(nil)
 		setKernel(hostAVX512)
 	}()
+	// destination values for Root/Object/Array: fresh per run, then kept across all documents of the run (drawn per run)
+	walkDsts = &walkDstCache{}
+	if prop != "C20" && prop != "C11X" {
+		// (C20 runs several caller goroutines at once: a shared destination cache would be the harness's own race)
+		walkDsts.reuse = c.Intn("walkdsts", 2) == 1
+	}
+	before := simdjson.SimProbeSnapshot()
 	fn(r)
+	after := simdjson.SimProbeSnapshot()
+	for i := range after {
+		if d := after[i] - before[i]; d > 0 {
+			r.Res.Stats["probe_"+simdjson.SimProbeNames[i]] += int(d)
+		}
+	}
 	r.finish()
 	return r.Res
 }
